@@ -439,10 +439,12 @@ class _LocalSendRecvDepGatherer(
             from pytato.distributed.verify import DuplicateSendError
             raise DuplicateSendError(f"Multiple sends found for '{send_id}'")
 
+        # Register before descending: the payload may itself contain a send
+        # with the same communication ID, which must be reported as a duplicate.
+        self.local_send_id_to_send_node[send_id] = expr.send
+
         self.local_comm_ids_to_needed_comm_ids[send_id] = \
                 self.rec(expr.send.data)
-
-        self.local_send_id_to_send_node[send_id] = expr.send
 
         return self.rec(expr.passthrough_data)
 
